@@ -805,6 +805,8 @@ def zrank_recursion(rep, ex: Explorer, cls: str):
                 want = "k+1" if sat is False else ("0" if kv == 0 else "Rec(k-1)")
                 if ok_rec:
                     ss = [v for nm, v in snapd.items() if v[0] == "solver"]
+                    if not ss:
+                        raise AnalysisError(f"{site}: the solver of the layer test is not an object the analysis follows")
                     ok_s = len(ss) == 1 and canon_items(flat(ss[0][3])) == base
                     rep.check(ok_s, "ZRANK.recursion", site, "scope at recursion", "the layer constraints persist into the next lower layer (same solver)",
                               extracted=show_items(flat(ss[0][3])) if ss else "no solver", required=show_items(heads + [layer]), function=site)
@@ -820,6 +822,8 @@ def zrank_recursion(rep, ex: Explorer, cls: str):
                 got = "Rec(k-1)" if ok_rec else repr(rv)
                 if ok_rec:
                     ss = [s for s in recs[0].snap if s[0] == "solver"]
+                    if not ss:
+                        raise AnalysisError(f"{site}: the solver of the layer test is not an object the analysis follows")
                     ok_s = len(ss) == 1 and canon_items(flat(ss[0][3])) == base
                     rep.check(ok_s, "ZRANK.recursion", f"{site}:{recs[0].node.lineno}", "scope at recursion", "the layer constraints persist into the next lower layer (same solver)",
                               extracted=show_items(flat(ss[0][3])) if ss else "no solver", required=show_items(heads + [layer]), function=site)
@@ -859,6 +863,8 @@ def zrank_recursion(rep, ex: Explorer, cls: str):
         idx = [a.lin for a in rc.args if isinstance(a, LinV)]
         rep.check(bool(idx) and idx[0] == LAST, "ZRANK.recursion", f"{site2}:{rc.node.lineno}", "start index", "the rank recursion starts at the highest layer", extracted=F.show_lin(idx[0]) if idx else "?", required="len(P)-1", function=site2)
         ss = [s for s in rc.snap if s[0] == "solver"]
+        if not ss:
+            raise AnalysisError(f"{site2}:{rc.node.lineno}: the solver handed to the recursion is not an object the analysis follows (kept on the object or in state from an earlier call?)")
         ok = len(ss) == 1 and canon_items(flat(ss[0][3])) == canon_items(world_items(W))
         rep.check(ok, "ZRANK.recursion", f"{site2}:{rc.node.lineno}", "start scope", "the recursion starts from exactly the world's literals", extracted=show_items(flat(ss[0][3])) if ss else "no solver", required=show_items(world_items(W)), function=site2)
         news = [ev for ev, Q in iter_events(p.events) if ev.kind == "solver.new"]
@@ -1876,3 +1882,111 @@ def format_agree(rep, ex: Explorer):
                 rep.check(ok, "FORMAT.agree", site_s, f"{what}: name {name!r}, fmt={fmt}", f"writes {sorted(wrote)}; the loader accepts {sorted(accepts)} for that name",
                           extracted=f"saved as {sorted(wrote)}, loader reads {sorted(accepts)}" + "".join(f"; {f} only sometimes: {why}" for f, why in fallback.items()), required="saved format ∈ formats the loader accepts", function=site_l)
     rep.floor("FORMAT.agree table rows", n, 16)
+
+
+def load_rebuild(rep, ex: Explorer):
+    """STATE.pickled [what load leaves unset]: `load_ocf` sets the attributes that cannot be pickled to None.  A loaded object
+    goes on ranking worlds, so no method that can run after a load may dereference such an attribute (`self.X.m()`,
+    `self.X[...]`, `self.X(...)`) unless the method itself assigns it or tests it first.  Methods that only the constructor
+    reaches are exempt (a loaded object is not constructed).  Decided on the class hierarchy of the ranking objects."""
+    import ast as _ast
+
+    prog = ex.prog
+    lo = prog.functions.get(f"{PO}.load_ocf")
+    if lo is None:
+        raise AnalysisError("PreOCF.load_ocf not found")
+    site_l = fn_label(prog, f"{PO}.load_ocf")
+    # --- the attributes load sets to None
+    lists = {}
+    none_attrs = set()
+    for n in _ast.walk(lo.node):
+        if isinstance(n, _ast.Assign) and len(n.targets) == 1 and isinstance(n.targets[0], _ast.Name) and isinstance(n.value, (_ast.List, _ast.Tuple)) \
+                and all(isinstance(e, _ast.Constant) and isinstance(e.value, str) for e in n.value.elts):
+            lists[n.targets[0].id] = [e.value for e in n.value.elts]
+    for n in _ast.walk(lo.node):
+        if isinstance(n, _ast.For) and isinstance(n.target, _ast.Name):
+            src = n.iter
+            names = lists.get(src.id) if isinstance(src, _ast.Name) else ([e.value for e in src.elts] if isinstance(src, (_ast.List, _ast.Tuple)) and all(isinstance(e, _ast.Constant) for e in src.elts) else None)
+            for c in _ast.walk(n):
+                if isinstance(c, _ast.Call) and isinstance(c.func, _ast.Name) and c.func.id == "setattr" and len(c.args) == 3 and isinstance(c.args[2], _ast.Constant) and c.args[2].value is None \
+                        and isinstance(c.args[1], _ast.Name) and c.args[1].id == n.target.id:
+                    if names is None:
+                        raise AnalysisError(f"{site_l}: attributes are set to None over a list the analysis cannot read")
+                    none_attrs.update(names)
+        if isinstance(n, _ast.Assign) and isinstance(n.value, _ast.Constant) and n.value.value is None:
+            for t in n.targets:
+                if isinstance(t, _ast.Attribute) and isinstance(t.value, _ast.Name) and t.value.id != "self":
+                    none_attrs.add(t.attr)
+    rep.floor("attributes load_ocf leaves unset", len(none_attrs), 1)
+    # --- methods of the hierarchy, who calls whom through self
+    classes = [c for c in prog.classes if c == PO or PO in prog.mro(c)]
+    methods = {}
+    for c in classes:
+        for name, fi in prog.classes[c].methods.items():
+            methods.setdefault(name, []).append(fi)
+    callers = {}
+    for name, fis in methods.items():
+        for fi in fis:
+            for n in _ast.walk(fi.node):
+                if isinstance(n, _ast.Call) and isinstance(n.func, _ast.Attribute) and isinstance(n.func.value, _ast.Name) and n.func.value.id in ("self", "cls") and n.func.attr in methods:
+                    callers.setdefault(n.func.attr, set()).add(name)
+                if isinstance(n, _ast.Attribute) and isinstance(n.value, _ast.Name) and n.value.id == "self" and n.attr in methods and not isinstance(n.ctx, _ast.Store):
+                    callers.setdefault(n.attr, set()).add(name)  # (a bound method handed on: self.rank_world as a callback)
+    only_init = set()
+    changed = True
+    while changed:
+        changed = False
+        for name in methods:
+            if name in only_init or name == "__init__" or not name.startswith("_") or name.startswith("__"):
+                continue
+            cs = callers.get(name, set())
+            if cs and all(c == "__init__" or c in only_init for c in cs):
+                only_init.add(name)
+                changed = True
+    n_methods = 0
+    for name, fis in sorted(methods.items()):
+        if name in ("__init__", "load_ocf", "save_ocf", "__getstate__", "__setstate__") or name in only_init:
+            continue
+        for fi in fis:
+            n_methods += 1
+            site = fn_label(prog, fi.qualname)
+            assigned, tested, derefs = set(), set(), []
+            for n in _ast.walk(fi.node):
+                if isinstance(n, _ast.Attribute) and isinstance(n.value, _ast.Name) and n.value.id == "self" and n.attr in none_attrs:
+                    if isinstance(n.ctx, _ast.Store):
+                        assigned.add(n.attr)
+                if isinstance(n, _ast.Compare) and isinstance(n.left, _ast.Attribute) and isinstance(n.left.value, _ast.Name) and n.left.value.id == "self" and n.left.attr in none_attrs:
+                    tested.add(n.left.attr)
+                if isinstance(n, (_ast.If, _ast.While, _ast.IfExp, _ast.Assert)):
+                    t = n.test
+                    if isinstance(t, _ast.UnaryOp) and isinstance(t.op, _ast.Not):
+                        t = t.operand
+                    for x in ([t] if not isinstance(t, _ast.BoolOp) else t.values):
+                        if isinstance(x, _ast.Attribute) and isinstance(x.value, _ast.Name) and x.value.id == "self" and x.attr in none_attrs:
+                            tested.add(x.attr)
+                if isinstance(n, _ast.Call) and isinstance(n.func, _ast.Name) and n.func.id in ("getattr", "hasattr") and len(n.args) >= 2 and isinstance(n.args[1], _ast.Constant) and n.args[1].value in none_attrs:
+                    tested.add(n.args[1].value)
+                inner = None
+                if isinstance(n, _ast.Assign) and isinstance(n.value, _ast.Attribute) and isinstance(n.value.value, _ast.Name) and n.value.value.id == "self" and n.value.attr in none_attrs \
+                        and all(isinstance(t, _ast.Name) for t in n.targets):
+                    # bound to a local first: what is done with the local is done with the attribute
+                    local = n.targets[0].id
+                    used = [m for m in _ast.walk(fi.node) if (isinstance(m, _ast.Attribute) and isinstance(m.value, _ast.Name) and m.value.id == local) or
+                            (isinstance(m, _ast.Subscript) and isinstance(m.value, _ast.Name) and m.value.id == local) or
+                            (isinstance(m, _ast.Call) and isinstance(m.func, _ast.Name) and m.func.id == local)]
+                    guarded = any(isinstance(m, _ast.Compare) and isinstance(m.left, _ast.Name) and m.left.id == local for m in _ast.walk(fi.node))
+                    if used and not guarded:
+                        derefs.append((n.value.attr, used[0].lineno))
+                if isinstance(n, _ast.Attribute) and isinstance(n.value, _ast.Attribute):
+                    inner = n.value
+                elif isinstance(n, _ast.Subscript) and isinstance(n.value, _ast.Attribute):
+                    inner = n.value
+                elif isinstance(n, _ast.Call) and isinstance(n.func, _ast.Attribute) and isinstance(n.func.value, _ast.Name) and n.func.value.id == "self" and n.func.attr in none_attrs:
+                    inner = n.func
+                if inner is not None and isinstance(inner.value, _ast.Name) and inner.value.id == "self" and inner.attr in none_attrs:
+                    derefs.append((inner.attr, n.lineno))
+            for a, line in derefs:
+                ok = a in assigned or a in tested
+                rep.check(ok, "STATE.pickled", f"{site}:{line}", f"self.{a} after a load", "an attribute that load_ocf leaves as None is rebuilt or tested before it is used by anything a loaded object can run",
+                          extracted=f"self.{a} is dereferenced; the method neither assigns nor tests it, and it is reachable without the constructor" if not ok else "assigned or tested in the method", required="rebuild on demand (or a None test)", function=site)
+    rep.floor("methods of the ranking classes looked at for unset attributes", n_methods, 20)
